@@ -2585,3 +2585,64 @@ def spec_subcommand_dispatch_guard(fns, consts):
 
 
 SPECS["C09"].append(spec_subcommand_dispatch_guard)
+
+
+# ------------------------------------------------------------------ C12: the template that lists items is used whenever something is listable
+
+def spec_auto_help_template(fns, consts):
+    """AutoHelp::write_help: the default template containing `{all-args}` (the one that lists options,
+    positionals AND subcommands) is chosen exactly when a positional is shown, or a non-positional is shown
+    (both via should_show_arg for the current mode), or the command has visible subcommands; the bare
+    template (no item sections at all) only when none of the three holds."""
+    con = contracts.Contracts(fns, default_pure=True)
+    ctx = symex.Ctx(consts, con)
+    c = [f for n, f in fns.items() if n.endswith("::write_help") and "help_template.rs" in n and "AutoHelp" in f.get().params[0][1]]
+    if len(c) != 1:
+        raise Unsupported("AutoHelp::write_help not found exactly once")
+    fn = c[0].get()
+    ex = symex.Exec(ctx, fn, [("opq", "self")]).run()
+    obs = []
+
+    def add(msg, pc, neg, block="ret"):
+        obs.append({"fn": fn.name, "block": block, "kind": "spec", "target": "auto_help_template", "msg": msg, "pc": list(pc), "neg": neg})
+
+    def lit(name):
+        v = consts.get(name) or consts.get("output::help_template::" + name)
+        return v[2] if v else ""
+    full_has = "{all-args}" in lit("DEFAULT_TEMPLATE")
+    bare_has = "{all-args}" in lit("DEFAULT_NO_ARGS_TEMPLATE") or "{subcommands}" in lit("DEFAULT_NO_ARGS_TEMPLATE")
+    add("DEFAULT_TEMPLATE lists items ({all-args}); DEFAULT_NO_ARGS_TEMPLATE does not", [], "false" if (full_has and not bare_has) else "true", block="shape")
+    anys = [k for k in ctx.keys if re.search(r" as Iterator>::any::<\{closure@clap_builder/src/output/help_template\.rs", k)]
+    pos = [ctx.keys[k] for k in anys if "Command::get_positionals(" in k]
+    non = [ctx.keys[k] for k in anys if "Command::get_non_positionals(" in k]
+    sub = [ctx.keys[k] for k in ctx.keys if re.match(r"^command::Command::has_visible_subcommands\(", k)]
+    if len(pos) != 1 or len(non) != 1 or len(sub) != 1:
+        add("AutoHelp::write_help no longer has the reference shape (the three visibility tests)", [], "true", block="shape")
+        return ctx, obs, [_enc(fn, ex, 0)], con
+    cond = f"(or {pos[0]} {non[0]} {sub[0]})"
+    for (pc, val), ca in zip(ex.returns, ex.return_callargs):
+        w = [c for c in ca if c[0].endswith("::write_templated_help")]
+        if len(w) != 1:
+            add("the help is written through exactly one template", pc, "true")
+            continue
+        t = w[0][1][1]
+        if t.startswith("str:") and "{usage}" in t and "{all-args}" not in t and "{subcommands}" not in t:
+            add("the bare template is used only when nothing is listable", pc, cond)
+        elif t.startswith("str:") and "{all-args}" in t:
+            add("the listing template is used only when something is listable", pc, f"(not {cond})")
+        else:
+            add("an unexpected template is used: " + t[:40], pc, "true")
+    # the two predicates are should_show_arg(use_long, arg)
+    for k in anys:
+        loc = re.search(r"\{closure@clap_builder/src/output/help_template\.rs[^}]*\}", k).group(0)
+        try:
+            cf = _closure_fn(fns, loc)
+            cex = symex.Exec(ctx, cf, [("opq", "ah_env"), ("opq", "ah_arg")]).run()
+            ok = len(cex.returns) == 1 and cex.returns[0][1][0] == "bool" and any(c[0] == "should_show_arg" and "ah_arg" in c[1][1] for c in cex.return_callargs[0]) and cex.returns[0][1][1] == ctx.keys.get([c for c in cex.return_callargs[0] if c[0] == "should_show_arg"][0][2])
+        except Unsupported:
+            ok = False
+        add("an argument counts as listable iff should_show_arg(use_long, arg)", [], "false" if ok else "true", block="closure")
+    return ctx, obs, [_enc(fn, ex, len(ex.returns))], con
+
+
+SPECS["C12"].append(spec_auto_help_template)
